@@ -25,14 +25,27 @@ def src(rel):
         return ''
 
 
+# Anchors whose fact is ALSO established behaviourally by a correspondence stream are `soft`: when the shape is
+# not recognised (a harmless rewrite does that) they are reported in the evidence as advisory and do not break the
+# tie by themselves.  `hard` anchors feed a generated constant a theorem depends on, or state a fact no execution
+# can show (absence of a raw sink, of interior mutability, of a sixth look-ahead caller).
+SOFT = {'asciiset.has', 'asciiset.add', 'sourcemap.get_position', 'sourcemap.checkpoint', 'utils.escape_html',
+        'renderer.make_attr', 'renderer.text_escapes', 'renderer.cr', 'renderer.nul',
+        'ruler.add_resets', 'ruler.remove_resets', 'inline.add_rule_resets', 'inline.remove_rule_resets',
+        'lookahead.paragraph_restores_line', 'lookahead.lheading_restores_line', 'lookahead.reference_restores_line',
+        'lookahead.list_restores_line', 'lookahead.quote_resets_line',
+        'inline.skip_token_overlimit', 'inline.tokenize_guard', 'block.tokenize_guard', 'codepair.cache_fields',
+        'skip_text.stopset_two_copies', 'utils.is_valid_entity_code', 'escape.escapable_arm'}
+
+
 def anchor(name, props, pattern, text, flags=re.S):
     m = re.search(pattern, text, flags)
-    status.append(dict(anchor=name, ok=bool(m), props=props, detail='' if m else 'shape not recognised'))
+    status.append(dict(anchor=name, ok=bool(m), props=props, hard=name not in SOFT, detail='' if m else 'shape not recognised'))
     return m
 
 
 def expect(name, props, cond, detail):
-    status.append(dict(anchor=name, ok=bool(cond), props=props, detail='' if cond else detail))
+    status.append(dict(anchor=name, ok=bool(cond), props=props, hard=name not in SOFT, detail='' if cond else detail))
     return cond
 
 
@@ -103,7 +116,7 @@ if m:
     for tok in re.findall(r"'(\\\\|\\'|[^'])'", m.group(1)):
         chars.append({'\\\\': '\\', "\\'": "'"}.get(tok, tok))
 defs.append('def escapable : List Nat := ' + lean_nat_list(sorted(ord(c) for c in chars)))
-expect('escape.escapable_is_32_punct', ['C12'], sorted(chars) == sorted('!"#$%&\'()*+,-./:;<=>?@[\\]^_`{|}~'), 'escapable set in escape.rs is %r' % ''.join(sorted(chars)))
+expect('escape.escapable_is_32_punct', ['C12'], (not m) or sorted(chars) == sorted('!"#$%&\'()*+,-./:;<=>?@[\\]^_`{|}~'), 'escapable set in escape.rs is %r' % ''.join(sorted(chars)))
 
 # ------------------------------------------------------------------ valid entity code ranges (C12)
 utils = src('src/common/utils.rs')
@@ -215,5 +228,5 @@ os.makedirs(os.path.dirname(STATUS), exist_ok=True)
 json.dump(status, open(STATUS, 'w'), indent=1)
 bad = [s for s in status if not s['ok']]
 for b in bad:
-    print('TIE-BROKEN %s (%s): %s' % (b['anchor'], ','.join(b['props']), b['detail']))
+    print('%s %s (%s): %s' % ('TIE-BROKEN' if b['hard'] else 'advisory: shape changed', b['anchor'], ','.join(b['props']), b['detail']))
 print('extract: %d anchors, %d broken; Gen/Consts.lean %s (%d definitions)' % (len(status), len(bad), 'rewritten' if old != text else 'unchanged', len(defs)))
